@@ -130,10 +130,18 @@ func (br *BoundsRules) knownLen(fc *FuncCtx, v ssa.Value, at *ssa.BasicBlock, de
 	}
 	switch x := v.(type) {
 	case *ssa.Slice:
-		if x.Low == nil && x.High == nil {
-			if pt, ok := x.X.Type().Underlying().(*types.Pointer); ok {
-				if at, ok := pt.Elem().Underlying().(*types.Array); ok {
-					return at.Len(), true
+		if pt, ok := x.X.Type().Underlying().(*types.Pointer); ok {
+			if at, ok := pt.Elem().Underlying().(*types.Array); ok {
+				lo, hi := int64(0), at.Len()
+				okB := true
+				if x.Low != nil {
+					lo, okB = constInt(x.Low)
+				}
+				if x.High != nil && okB {
+					hi, okB = constInt(x.High) // make([]T, k) with constant k: new [k]T sliced [:k]
+				}
+				if okB && lo >= 0 && lo <= hi && hi <= at.Len() {
+					return hi - lo, true
 				}
 			}
 		}
